@@ -211,7 +211,7 @@ def work_history(item):
 
 
 def run(ctx: Ctx) -> None:
-    H = R = 12 if ctx.quick else 40
+    H = R = 16 if ctx.quick else 40
     items = []
     for h in range(H + 1):
         for r in range(R + 1):
